@@ -785,7 +785,15 @@ def export_rules(ctx, name, keyty, qubo):
                  used_of_objective,
                  lambda b: b.has_call(r'impl v1::Instance>::binary_ids') and not b.has_field(INST, 'objective'), 'used ids ⊆ binary ids')
     # ---- the term loop: a loop over the objective's (ids, coefficient) items that writes the map
-    is_map = lambda c: bool(re.search(r"(BTreeMap|btree_map::(Entry|OccupiedEntry|VacantEntry))::<('_, )?sorted_ids::%s, f64>" % keyty, c.name))
+    typed_map = is_map_of(keyty)
+    map_ctors = [c for c in body.calls if typed_map(c) and c.item in ('new', 'default', 'from', 'from_iter')]
+    generic_map = re.compile(r"(BTreeMap|btree_map::(Entry|OccupiedEntry|VacantEntry))::<('_, )?\w+, f64>")      # key = a type parameter (inlined generic helper)
+    _ismap = {}
+    def is_map(c):
+        if c.bb not in _ismap:
+            _ismap[c.bb] = bool(typed_map(c)) or (bool(generic_map.search(c.name)) and bool(c.args) and c.args[0]['k'] in ('copy', 'move')
+                                                and any(k in sl(c.args[0]).call_objs for k in map_ctors))
+        return _ismap[c.bb]
     def term_loop(lo):
         s = sl(lo[0].args[0])
         return s.has_field(INST, 'objective') and any(re.search(r'IntoIterator for &(\'\w+ )?v1::Function>::into_iter', c.name) for c in s.call_objs)
@@ -1018,6 +1026,15 @@ def export_rules(ctx, name, keyty, qubo):
                     if sum(1 for o in rv['ops'] if rooted_in(body, o, lambda c: c is nx)) == 1: out.append(bi)
             return out
         const_next = nextc
+        # EMPTY idiom without a bool: `match ids.len() { 0 => .., _ => .. }` — a switch on the length itself
+        for c in body.calls:
+            if c.item == 'len' and c.args and c.bb in blocks and on_ids(c) and not c.dst['p']:
+                lens = plain_copies_of(body, c.dst['l'])
+                for bi2 in sorted(blocks):
+                    t2 = body.blocks[bi2]['term']
+                    if t2['k'] == 'switch' and t2['d']['k'] != 'const' and not t2['d']['pl']['p'] and t2['d']['pl']['l'] in lens:
+                        m2 = {v: tg for v, tg in t2['ts']}
+                        if 0 in m2 and m2[0] != t2['else']: empties.append(m2[0])
         for empty_bb in empties:
             treg = body.reach([empty_bb], stop={header})
             if treg & wbbs: continue
@@ -1051,6 +1068,11 @@ def export_rules(ctx, name, keyty, qubo):
     rets = [(bi, st) for bi, k, st in body.ret_assignments() if k == 'ok']
     badr = [bi for bi, r in rets if not any(c in sl(r['rv']['ops'][0]).call_objs for c in W)]
     ctx.check(bool(rets) and not badr, R + '/result/is-the-map', 'T-CARRY', body.name, 'returned value is not the accumulated map', body.site(badr[0]) if badr else body.site())
+
+
+def plain_copies_of(body, l):
+    """locals that are plain copies of local l (forward)"""
+    return T.copies_of(body, l, through_refs=False, through_deref=False)
 
 
 def plain_source(body, o, depth=8):
@@ -1220,6 +1242,14 @@ class PairShape:
                 if c.item == 'get' and recv_ok and len(c.args) == 2 and usize_const(const_operand(b, c.args[1]) or {'k': ''}) is not None:
                     return ('opt', ('s', usize_const(const_operand(b, c.args[1]))))
                 if c.item == 'len' and recv_ok: return ('len',)
+                # k-th `next()` of one iterator over the (sorted, duplicate-free) ids, taken in straight-line code: Option of element k
+                if c.item == 'next' and 'Iterator' in (c.trait or '') and recv_ok and T.loop_of_next(b, c) is None:
+                    it = self.iter_local(a0)
+                    if it is not None:
+                        before = [y for y in b.calls if y is not c and y.item == 'next' and 'Iterator' in (y.trait or '') and y.args and self.iter_local(y.args[0]) == it]
+                        if all(b.dominates(y.bb, c.bb) or b.dominates(c.bb, y.bb) for y in before):
+                            return ('opt', ('s', sum(1 for y in before if b.dominates(y.bb, c.bb))))
+                    return None
                 # ORDER idiom: a.min(b) / a.max(b) / std::cmp::min(a, b) of two elements
                 if c.item in ('min', 'max') and len(c.args) == 2 and re.search(r'cmp::Ord>::(min|max)$|std::cmp::(min|max)(::<.*>)?$', c.name):
                     rs = [self.resolve(a['pl'], depth - 1) if a['k'] in ('copy', 'move') else None for a in c.args]
@@ -1252,6 +1282,17 @@ class PairShape:
                 p2 = rv['ops'][0]['pl']; l = p2['l']; proj = list(p2['p']) + proj; continue
             return None
         return None
+
+    def iter_local(self, o):
+        """the iterator variable a `&mut it` operand refers to"""
+        if o['k'] not in ('copy', 'move'): return None
+        l = o['pl']['l']
+        for _ in range(4):
+            d = single_def(self.b, l)
+            if d and d[0] == 'stmt' and d[2]['rv']['k'] == 'ref' and d[2]['rv']['pl']['p'] in ([], ['*']): l = d[2]['rv']['pl']['l']; continue
+            if d and d[0] == 'stmt' and d[2]['rv']['k'] == 'use' and d[2]['rv']['ops'][0]['k'] in ('copy', 'move') and not d[2]['rv']['ops'][0]['pl']['p']: l = d[2]['rv']['ops'][0]['pl']['l']; continue
+            break
+        return l
 
     def pred(self, l, depth=6):
         """predicate held by a bool / discriminant local: ('len', op, k) | ('some', pos) | ('empty',) |
